@@ -131,6 +131,11 @@ func getDef(id string) *defT {
 		// two units whose names differ only in letter case
 		return mk([4]string{"mW", "mW", "milliwatt", "milliwatts"}, []int64{1000000, 1000},
 			[][4]string{{"MW", "MW", "Megawatt", "Megawatts"}, {"W", "W", "watt", "watts"}})
+	case "gfm":
+		// basis points: names of the units above the base unit that mean something to fmt, regexp replacement and
+		// string escapes ("%", "%d", "$1", a backslash) - a name is data wherever it is used
+		return mk([4]string{"bp", "bp", "basispoint", "basispoints"}, []int64{10000, 100},
+			[][4]string{{"x$1", "x$1", "time%d", "time%ds"}, {"%", "%", "per\\cent", "per\\cents"}})
 	case "gk":
 		return mk([4]string{"g", "g", "gram", "grams"}, []int64{1000000, 1000, 10, 2},
 			[][4]string{{"t", "t", "tonne", "tonnes"}, {"kg", "kg", "kilo", "kilos"}, {"dag", "dag", "deca", "decas"}, {"dg", "dg", "double", "doubles"}})
